@@ -10,7 +10,7 @@ import os
 
 import pymc
 from pymc import NAMINGS
-from common import SPEC, TLA_CP, MachineryError
+from common import SPEC, TLA_CP, MachineryError, exc_name
 
 
 def project_graph(G, idx):
@@ -114,7 +114,7 @@ def run_behaviour(b):
         except (KeyboardInterrupt, SystemExit, MemoryError):
             raise
         except BaseException as ex:
-            out = {'exc': type(ex).__name__, 'msg': str(ex)[:100]}
+            out = {'exc': exc_name(ex), 'msg': str(ex)[:100]}
         ev['out'] = out
         ev['pool'] = {str(k): project_graph(g, idx) for k, g in pool.items()}
         events.append(ev)
